@@ -381,7 +381,7 @@ func drawPlan(t *rapid.T, kind string, c *Case) Plan {
 var planKinds = []string{"one", "bytes", "every", "single", "multi", "multi"}
 
 func TestPropServer(t *testing.T) {
-	hx.Check(t, "server", hx.N(60, 1500), func(t *rapid.T) {
+	hx.Check(t, "server", hx.N(75, 2000), func(t *rapid.T) {
 		c := genServer(t)
 		if err := execute("server", c); err != nil {
 			hx.Failf(t, "server", c, "%v", err)
@@ -390,7 +390,7 @@ func TestPropServer(t *testing.T) {
 }
 
 func TestPropClient(t *testing.T) {
-	hx.Check(t, "client", hx.N(60, 1500), func(t *rapid.T) {
+	hx.Check(t, "client", hx.N(75, 2000), func(t *rapid.T) {
 		c := genClient(t)
 		if err := execute("client", c); err != nil {
 			hx.Failf(t, "client", c, "%v", err)
